@@ -139,6 +139,12 @@ func c09Body(r *Run) {
 			})
 		}
 		rig.Router.AddPublisherDecorators(decs...)
+		// the caller's slice is the caller's: it is reused (overwritten) after the call
+		for k := range decs {
+			decs[k] = message.MessageTransformPublisherDecorator(func(m *message.Message) {
+				m.Metadata.Set("pubtrace", strings.TrimPrefix(m.Metadata.Get("pubtrace")+",SCRIBBLED-BY-THE-CALLER-AFTER-THE-CALL", ","))
+			})
+		}
 		i += n
 	}
 	for i := 0; i < nSubDec; {
@@ -161,19 +167,35 @@ func c09Body(r *Run) {
 			})
 		}
 		rig.Router.AddSubscriberDecorators(decs...)
+		for k := range decs {
+			decs[k] = message.MessageTransformSubscriberDecorator(func(m *message.Message) {
+				m.Metadata.Set("subtrace", strings.TrimPrefix(m.Metadata.Get("subtrace")+",SCRIBBLED-BY-THE-CALLER-AFTER-THE-CALL", ","))
+			})
+		}
 		i += n
 	}
 	// registrations: early part (router-level + early handlers) before Run
 	var lateRegs [][2]int // (handler index, tag number) for late handlers, kept in program order
 	for i, op := range prog {
 		tag := fmt.Sprintf("mw%d", i)
-		if op == 0 {
-			rig.Router.AddMiddleware(mkMW(tag))
-			routerTags = append(routerTags, tag)
-			for _, h := range hs {
-				h.want = append(h.want, tag)
+		// random programs: one AddMiddleware call may register several middlewares at once
+		tags := []string{tag}
+		if !exhaustive && (op == 0 || !hs[op-1].late) {
+			for j := t.Skewed(4); j > 0; j-- {
+				tags = append(tags, fmt.Sprintf("%s.%d", tag, len(tags)))
 			}
-			desc = append(desc, "R:"+tag)
+		}
+		var mws []message.HandlerMiddleware
+		for _, tg := range tags {
+			mws = append(mws, mkMW(tg))
+		}
+		if op == 0 {
+			rig.Router.AddMiddleware(mws...)
+			routerTags = append(routerTags, tags...)
+			for _, h := range hs {
+				h.want = append(h.want, tags...)
+			}
+			desc = append(desc, "R:"+strings.Join(tags, "+"))
 			continue
 		}
 		h := hs[op-1]
@@ -182,9 +204,9 @@ func c09Body(r *Run) {
 			continue
 		}
 		addHandler(h)
-		h.h.AddMiddleware(mkMW(tag))
-		h.want = append(h.want, tag)
-		desc = append(desc, h.name+":"+tag)
+		h.h.AddMiddleware(mws...)
+		h.want = append(h.want, tags...)
+		desc = append(desc, h.name+":"+strings.Join(tags, "+"))
 	}
 	for _, h := range hs {
 		if !h.late {
